@@ -7,6 +7,8 @@ VERIF = os.path.dirname(os.path.dirname(os.path.abspath(__file__)))
 CHECKS = {}   # pid -> dict(category, text, design_ref, note, technique)
 
 def reg(pid, text, note, technique, design_ref, category="exploration"):
+    import re as _re
+    assert _re.fullmatch(r"C\d\d", pid) and pid not in CHECKS, f"bad or duplicate property id in reg(): {pid!r}"
     CHECKS[pid] = dict(category=category, text=text, design_ref=design_ref, note=note, technique=technique)
 
 reg("C17",
@@ -128,27 +130,27 @@ reg("C03",
     "Trusted: step counter (function entries + jumps in bromelia code), bound 5000+400n+n^2/16; reference decoder for the "
     "malformed/well-formed classification. " ,
     "structure-aware mutation testing + coverage-guided fuzzing (atheris) with semantic oracles", "DESIGN.md#c03")
-reg("C04 Plus a bounded exhaustive rendezvous sweep: the consumer paused at each source line of the delivery API until the state machine's next hand-over signal.",
+reg("C04",
     WORLD + "Generated message sequences x segmentations (one segment, aligned, inside header, inside AVP header, bytewise, random, "
     "coalesced, header-prefix) x 1-2 consumers x schedule prefixes (random walk, PCT-like, optional source-line preemption) x targeted "
     "delays (a library thread paused right after leaving a critical section) + fair completion; "
-    "delivered dump() bytes compared with the sent sequence (multiset, once, order), DWA order reference-decoded.",
+    "delivered dump() bytes compared with the sent sequence (multiset, once, order), DWA order reference-decoded. Plus a bounded exhaustive rendezvous sweep: the consumer paused at each source line of the delivery API until the state machine's next hand-over signal.",
     "Schedules are sampled, not enumerated; preemption granularity = shim operation / source line; liveness judged within 12 virtual "
     "seconds; TCP only.",
     "controlled-scheduler concurrency testing (randomised + PCT-like schedules) with a sequence oracle", "DESIGN.md#c04")
-reg("C05 Plus staggered submissions, inbound data arriving while a write remainder is pending, the scenario on the second connection of the object, and a bounded exhaustive rendezvous sweep over the send path.",
+reg("C05",
     WORLD + "1-3 submitter threads x message sequences (sizes crossing the 256 KiB batch limit) x partial-write patterns x inbound "
     "traffic x schedule prefixes; every byte accepted by the fake socket is reference-decoded and compared with the submitted "
-    "messages (whole, multiset, per-submitter order).",
+    "messages (whole, multiset, per-submitter order). Plus staggered submissions, inbound data arriving while a write remainder is pending, the scenario on the second connection of the object, and a bounded exhaustive rendezvous sweep over the send path.",
     "Schedules sampled; partial writes accept >= 1 byte; BlockingIOError is not injected on a writable socket; base traffic (CER/CEA, "
     "DWR/DWA, DPR/DPA) filtered by command code.",
     "controlled-scheduler concurrency testing with fault injection (partial writes) and a stream oracle", "DESIGN.md#c05")
 
-reg("C08 Plus DPRs with other Disconnect-Causes, peer time-out / host-unreachable, a death in the middle of an inbound message, two consumers, traffic in both directions after the restart, and a bounded exhaustive two-consumer rendezvous sweep.",
+reg("C08",
     WORLD + "Generated (termination cause x life point x role x schedule prefix) cases: local close, DPR, peer FIN/RST, refused "
     "connect at connecting / awaiting CEA / responder awaiting CER / idle Open / queued inbound / queued outbound / blocked consumer / "
     "Closing; at fair completion the state, every fake socket and selector, every controlled thread and the blocked API calls are "
-    "inspected, then the same object is started again and must reach Open.",
+    "inspected, then the same object is started again and must reach Open. Plus DPRs with other Disconnect-Causes, peer time-out / host-unreachable, a death in the middle of an inbound message, two consumers, traffic in both directions after the restart, and a bounded exhaustive two-consumer rendezvous sweep.",
     "Termination is bounded liveness: 30 virtual seconds under fair completion; schedules sampled; a cooperative peer answers the "
     "node's DPR except at life point 'closing'.",
     "controlled-scheduler fault-injection testing (connection faults x life points) with resource/liveness oracles", "DESIGN.md#c08")
